@@ -12,6 +12,7 @@ import (
 	kubeeventsmanager "github.com/flant/shell-operator/pkg/kube_events_manager"
 	kemtypes "github.com/flant/shell-operator/pkg/kube_events_manager/types"
 	utils "github.com/flant/shell-operator/pkg/utils/labels"
+	"github.com/flant/shell-operator/pkg/verifhook"
 )
 
 // KubernetesBindingToMonitorLink is a link between a binding config and a Monitor.
@@ -254,6 +255,7 @@ func (c *kubernetesBindingsController) BindingNames() []string {
 // SnapshotsFor returns snapshot for single onKubernetes binding.
 // It finds a monitorId for a binding name and returns an array of objects.
 func (c *kubernetesBindingsController) SnapshotsFor(bindingName string) []kemtypes.ObjectAndFilterResult {
+	verifhook.At("kbc.snapshotsFor", bindingName)
 	for _, binding := range c.KubernetesBindings {
 		if bindingName == binding.BindingName {
 			monitorID := binding.Monitor.Metadata.MonitorId
